@@ -441,3 +441,47 @@ fn c03_vec_u8_le16_image() {
     assert!(back[0] == 0xEE && back[9] == 0xEE && m[5] == 0xEE, "C14: bytes outside the value were written");
     assert!(FlatVec::<u8, le::U16>::validate(m).is_ok(), "C03: emplaced value does not validate");
 }
+
+
+/// C04: an unsized enum whose tag is wider than every payload field: ALIGN is the tag's alignment (what rustc gives the value),
+/// and the mapped value never covers more than the slice
+#[kani::proof]
+#[kani::unwind(8)]
+fn c04_uenum_wide_tag() {
+    assert!(<UEnumW as FlatBase>::ALIGN == 2 && <UEnumW as FlatBase>::MIN_SIZE == 2, "C04: constants of an enum with a wide tag differ from the compiler's layout");
+    let mut back = [0u8; 12];
+    kani::assume((back.as_ptr() as usize) % 2 == 0);
+    let len: usize = kani::any();
+    kani::assume(len >= 2 && len <= 9);
+    back[0] = 2; // tag C (little-endian u16 on the hosts in scope), empty vector
+    let b = &back[..len];
+    if let Ok(v) = UEnumW::from_bytes(b) {
+        assert!(core::mem::align_of_val(v) == <UEnumW as FlatBase>::ALIGN, "C04: ALIGN differs from align_of_val");
+        assert!(core::mem::size_of_val(v) <= len, "C04,C02: the mapped value covers more bytes than the slice");
+        assert!(v.size() <= len, "C05: size() exceeds the mapped bytes");
+    } else {
+        // payload = bytes[2..] floored to ALIGN 2 must hold the vector's length byte
+        assert!(len < 4, "C02: a well-formed image is rejected");
+    }
+}
+
+/// C17 / C03: a FlexVec with a PORTABLE offset type (size 2, alignment 1) filled by push: odd-sized items follow each other
+/// without padding, the image is the reference encoding
+#[kani::proof]
+#[kani::unwind(12)]
+fn c17_flex_push_le16() {
+    type V = FlexVec<FlatVec<u8, u8>, le::U16>;
+    let mut back = [0xEEu8; 16];
+    let (a, b, c): (u8, u8, u8) = (kani::any(), kani::any(), kani::any());
+    {
+        let v = V::default_in_place(&mut back[1..13]).unwrap();
+        v.push(flat_vec![a, b]).unwrap();
+        v.push(flat_vec![c]).unwrap();
+        assert!(v.len() == 2 && v.size() == 9, "C17,C05: len / size() differ from the reference encoding");
+    }
+    let m = &back[1..13];
+    // [offset 5 LE][len 2][a][b] [offset 0xFFFF][len 1][c]
+    assert!(m[0] == 5 && m[1] == 0 && m[2] == 2 && m[3] == a && m[4] == b, "C17,C03: image differs from the reference encoding");
+    assert!(m[5] == 0xFF && m[6] == 0xFF && m[7] == 1 && m[8] == c, "C17,C03: image differs from the reference encoding (padding between the records?)");
+    assert!(V::validate(m).is_ok(), "C17: image does not validate");
+}
